@@ -752,34 +752,36 @@ def derived_checks(case, o, ctx):
         items = [_lazy_f(oc["scale"], x) for x in oc["items"]]
         n = len(items)
         k, seed = case["ops"][0]
-        which = ["map", "map_list", "repeat", "add_lazy", "add_list", "slice", "index_list"][k % 7]
-        ctx.event("derived=LazyList.%s" % which)
         lo, hi = sorted([seed % (n + 1), (seed // 7) % (n + 1)])
-        if which == "map":
-            res, want = o.map(partial(_lazy_f, 2.0)), [x * 2.0 for x in items]
-        elif which == "map_list":
-            res, want = o.map([partial(_lazy_f, float(i + 1)) for i in range(n)]), [x * float(i + 1) for i, x in enumerate(items)]
-        elif which == "repeat":
-            rep = 1 + seed % 3
-            res, want = o.repeat(rep), [x for x in items for _ in range(rep)]
-        elif which == "add_lazy":
-            res, want = o + o, items + items
-        elif which == "add_list":
-            extra = [np.array([float(seed % 5)])] * (seed % 3)
-            res, want = o + extra, items + extra
-        elif which == "slice":
-            res, want = o[lo:hi], items[lo:hi]
-        else:
-            idx = [(seed + 3 * j) % n for j in range(min(n, 3))] if n else []
-            res, want = o[idx], [items[i] for i in idx]
-        ctx.expect(isinstance(res, LazyList) and res is not o, "lazylist.%s.not_a_new_list" % which, lambda: type(res).__name__)
-        if isinstance(res, LazyList):
-            ctx.expect(res._callables is not o._callables, "lazylist.%s.shares_callables_list" % which, "")
-            ctx.expect(len(res) == len(want) and all(np.array_equal(res[i], want[i]) for i in range(len(want))), "lazylist.%s.items" % which, lambda: "%d items, want %d" % (len(res), len(want)))
-            res._callables.append(partial(_lazy_f, 1.0, [0.0]))
-            if len(res) > 1:
-                res._callables.pop(0)
-            ctx.expect(len(o) == n and all(np.array_equal(o[i], items[i]) for i in range(n)), "lazylist.%s.edit_of_result_reaches_receiver" % which, "")
+        # every derived-list operation on every lazy case (a drawn one reached repeat(1) once in ~500 cases)
+        for which, rep_all in (("map", 0), ("map_list", 0), ("repeat", 1), ("repeat", 2), ("repeat", 3), ("add_lazy", 0),
+                               ("add_list", 0), ("slice", 0), ("index_list", 0)):
+            ctx.event("derived=LazyList.%s" % which)
+            if which == "map":
+                res, want = o.map(partial(_lazy_f, 2.0)), [x * 2.0 for x in items]
+            elif which == "map_list":
+                res, want = o.map([partial(_lazy_f, float(i + 1)) for i in range(n)]), [x * float(i + 1) for i, x in enumerate(items)]
+            elif which == "repeat":
+                rep = rep_all
+                res, want = o.repeat(rep), [x for x in items for _ in range(rep)]
+            elif which == "add_lazy":
+                res, want = o + o, items + items
+            elif which == "add_list":
+                extra = [np.array([float(seed % 5)])] * (seed % 3)
+                res, want = o + extra, items + extra
+            elif which == "slice":
+                res, want = o[lo:hi], items[lo:hi]
+            else:
+                idx = [(seed + 3 * j) % n for j in range(min(n, 3))] if n else []
+                res, want = o[idx], [items[i] for i in idx]
+            ctx.expect(isinstance(res, LazyList) and res is not o, "lazylist.%s.not_a_new_list" % which, lambda: type(res).__name__)
+            if isinstance(res, LazyList):
+                ctx.expect(res._callables is not o._callables, "lazylist.%s.shares_callables_list" % which, "")
+                ctx.expect(len(res) == len(want) and all(np.array_equal(res[i], want[i]) for i in range(len(want))), "lazylist.%s.items" % which, lambda: "%d items, want %d" % (len(res), len(want)))
+                res._callables.append(partial(_lazy_f, 1.0, [0.0]))
+                if len(res) > 1:
+                    res._callables.pop(0)
+                ctx.expect(len(o) == n and all(np.array_equal(o[i], items[i]) for i in range(n)), "lazylist.%s.edit_of_result_reaches_receiver" % which, "")
 
 
 def c_object(case, ctx):
